@@ -69,6 +69,10 @@ func profiles() []profile {
 		// the first ClientHello offers a session id the server's store does not (any longer) know
 		{Name: "12r", Resume: "unknown"},
 		{Name: "13x", V13: true, C: v13(alpn), S: v13(alpn)},
+		// retransmission configuration of the server: backoff disabled, short flight interval (the timer path that
+		// must never emit a cookie request depends on these options; added after a seeded change hid behind them)
+		{Name: "12nb", S: world.Cfg{NoBackoff: true, FlightInterval: 300 * time.Millisecond}},
+		{Name: "13nb", V13: true, C: v13(world.Cfg{}), S: v13(world.Cfg{NoBackoff: true, FlightInterval: 300 * time.Millisecond})},
 	}
 }
 
